@@ -150,7 +150,7 @@ func cmdCheck(args []string) int {
 	var reps []*FuncReport
 	for _, q := range eng.cf.Order {
 		c := eng.cf.Contracts[q]
-		touches := c.hasProp(prop) || contains(c.SafetyProps, prop) || contains(c.Touches, prop)
+		touches := c.hasProp(prop) || contains(c.SafetyProps, prop) || contains(c.Touches, prop) || (!c.Trusted && !c.Lemma && eng.calleeProps(q)[prop])
 		if !touches {
 			for _, cl := range append(append([]*Clause{}, c.Ensures...), c.Requires...) {
 				if cl.Props != nil && cl.inProp(c, prop) {
